@@ -53,6 +53,8 @@ for pid in sorted(CHECKS):
         "technique": c["technique"],
     })
 for pid in sorted(NOT_YET):
+    if pid in CHECKS:
+        continue
     man["not_applicable"].append({"property_id": pid, "reason": NOT_YET[pid]})
 with open(os.path.join(HERE, "MANIFEST.json"), "w") as fh:
     json.dump(man, fh, indent=1)
